@@ -75,6 +75,13 @@ CHECKS["C06"] = dict(
    note="Trusted: ref/jsonpda tokenizer/parser (cross-checked against encoding/json on every input). Exponent numerals are excluded from the cross-scanner relation.",
    design="4/C06")
 
+CHECKS["C18"] = dict(
+   category="exploration", engine="B small-scope enumeration, named-vs-inline differential",
+   technique="exhaustive enumeration of enum value lists x layouts and of all compilable regex sources up to 4/5 symbols; metamorphic named == inline == regexp",
+   text="All enum value lists of <= 3 (4) items over 7 literals (duplicates included) in 7 layouts: the named rule and the inline list must give identical verdicts on 14 probes, duplicates must make the rule's Check fail, Values()/GetAST() must list the literals in source order. All strings <= 4 (5) over a 16-symbol regex alphabet that regexp.Compile accepts: the regex type, the inline {regex} rule and regexp.MatchString must agree on all 156 probe strings <= 3 over {a,b,/,\",\\}; Example() matches the pattern; Len equals the /P/ token length with trailing text.",
+   note="Trusted: Go regexp. The third-party example generator ignores anchors, so 'Example matches P' is asserted only for patterns without inner anchors.",
+   design="4/C18")
+
 NOT_YET = {
 }
 
